@@ -33,6 +33,7 @@ struct ctx
     std::vector<std::vector<T>> expect_grid;       // vegas: grid the current iteration must sample with
     int dists = 0;
     bool half = false;   // integrand vanishes on half of the domain
+    bool constant = false; // (PLAIN) the integrand is constant
     long iter = 0;       // index (0-based, counted over the whole history) of the iteration in progress
     long zero_iter = -1; // the integrand is identically zero in this iteration
     std::vector<std::string> names;
@@ -63,7 +64,8 @@ struct plain_kind
     template <typename C> static void expect(ctx&, C const&) {}
     template <typename C, typename CB> static C run(ctx& x, C const& c, std::vector<std::size_t> const& calls, CB cb)
     {
-        auto f0 = [](hep::mc_point<T> const& p) { return p.point()[0] * p.point()[0] + T(0.25) * p.point()[1]; };
+        // (constant: every result has the variance zero, the combination of the results is not a number - a checkpoint like any other)
+        auto f0 = [&x](hep::mc_point<T> const& p) { return x.constant ? T(2) : p.point()[0] * p.point()[0] + T(0.25) * p.point()[1]; };
         std::vector<std::string> const& nm = x.names;
         auto f1 = [](hep::mc_point<T> const& p, hep::projector<T>& pr) {
             T v = p.point()[0] * p.point()[0] + T(0.25) * p.point()[1];
@@ -418,6 +420,7 @@ static void run_cfg(rng& g, char const* ename, E const& engine, int variant, int
     s.seed_engine = engine;
     s.x.dists = dists;
     s.x.half = variant == 2;
+    s.x.constant = variant == 4;
     s.x.zero_iter = zero_iter;
     static char const* names[6] = {"", " ", "a b", " lead", "trail ", "x"};
     s.x.names = std::vector<std::string>{names[g.below(6)], names[g.below(6)]};
@@ -484,7 +487,9 @@ int main(int argc, char** argv)
     run_cfg<vegas_kind>(g, "ranlux48_base", std::ranlux48_base(s), 2, 0, T(), thorough);
     run_cfg<mc_kind>(g, "mt19937", std::mt19937(s), 0, 0, T(), thorough);
     run_cfg<mc_kind>(g, "knuth_b", std::knuth_b(s), 1, 1, T(), thorough);
-    run_cfg<mc_kind>(g, "counter64", counter_engine<64>(s), 3, 0, T(), thorough);
+    run_cfg<mc_kind>(g, "counter64", counter_engine<64>(s), 1, 0, T(), thorough);
+    run_cfg<mc_kind>(g, "minstd_rand0", std::minstd_rand0(s), 3, 0, T(), false);
+    run_cfg<plain_kind>(g, "ranlux24_base", std::ranlux24_base(s), 4, 0, T(), false);
     run_cfg<mc_kind>(g, "ranlux24_base", std::ranlux24_base(s), 2, 0, T(), thorough);
     // an iteration whose sampled values are all zero (third iteration): the state must stay as it was
     run_cfg<vegas_kind>(g, "mt19937", std::mt19937(s), 1, 0, T(), thorough, 2);
